@@ -6,6 +6,8 @@ state the constructor, from_dict and from_str entry points are exercised with
 every (name, value) of the alphabets.  Reference: docs/message_types.rst.
 """
 import itertools
+from decimal import Decimal
+from fractions import Fraction
 from numbers import Integral, Real
 
 from .. import common
@@ -17,13 +19,22 @@ from ..ref import midi as ref
 PROP = 'C03'
 ALLOWED_EXC = (ValueError, TypeError, AttributeError)
 
-TIME_VALUES = (0, -1.5, 2 ** 70, float('inf'), 'x', None, 1j, [0], '1')
+TIME_VALUES = (0, -1.5, 2 ** 70, float('inf'), 'x', None, 1j, [0], '1',
+               0j, Decimal(0))
 
 
 def int_values(lo, hi):
     mid = (lo + hi) // 2
-    return (lo - 1, lo, mid, hi, hi + 1, True, 2 ** 64, -2 ** 64, 1.0, '1',
+    base = (lo - 1, lo, mid, hi, hi + 1, True, 2 ** 64, -2 ** 64, 1.0, '1',
             None, [1], 1 + 0j, float('nan'))
+    # equal to a valid value (the defaults are 0 and 64) but not an integer
+    equal = (float(lo), float(mid), float(hi), 64.0, 0.0, Fraction(mid),
+             Fraction(0), Fraction(64), Decimal(lo), 0j)
+    out = list(base)
+    for v in equal:
+        if not any(type(v) is type(o) and v == o for o in out):
+            out.append(v)
+    return tuple(out)
 
 
 class Gen:
@@ -464,7 +475,7 @@ def check_case(case):
         return out
     acc = Acc()
     srch = make_search(mido, case['type'], acc)
-    env = {'Gen': Gen, 'Sx': Sx, 'inf': float('inf'), 'nan': float('nan')}
+    env = {'Gen': Gen, 'Sx': Sx, 'Fraction': Fraction, 'Decimal': Decimal, 'inf': float('inf'), 'nan': float('nan')}
     hist = tuple(eval(o, env) for o in case['ops'])
     s = srch.build(hist[:-1])
     obs = srch.apply(s, hist[-1])
